@@ -36,6 +36,28 @@ def correspondence(ctx):
                 if s2 <= e and e2 >= s_ and v2 != v:
                     corr.spec_violations.append((f'rle|{a_}|{max(s_, s2):04X}', v2, f'VIOLATED:char entry point says {v}'))
                     break
+    # order-dependent probes (one process, so the history is real): a representative of every run boundary of the
+    # classification, then values that alias it modulo 2^k for k = 16..31 (and back): a cache keyed by truncated bits, or by
+    # "the previous code point", answers for the wrong code point
+    reps = sorted({c for s_, e, v in impl['cls_id'] for c in (s_, e) if c < 0x110000})
+    step = max(1, len(reps) // (300 if ctx.tier == 'quick' else 3000))
+    seqc = []
+    for c in reps[::step] + [0x41, 0x61, 0x4E00, 0x200D, 0xB7, 0x20, 0x10FFFF]:
+        for k in range(16, 32):
+            al = (c + (1 << k)) & 0xFFFFFFFF
+            for cl in ('id', 'ff'):
+                seqc += [f'cls.{cl}|{c:X}', f'cls.{cl}|{al:X}', f'cls.{cl}|{c:X}']
+        for top in (0x01, 0x7F, 0x80, 0xFF):
+            al = (top << 24) | c
+            seqc += [f'cls.id|{c:X}', f'cls.id|{al:X}', f'cls.ff|{al:X}', f'cls.ff|{c:X}', f'cls.id|{c:X}']
+    res = run_cases(seqc, ctx.work)
+    for case, impl_, model, verdict in res:
+        corr.evaluations += 1
+        if impl_ != model:
+            cp = int(case.split('|')[1], 16)
+            (corr.spec_violations if cp > 0x10FFFF and impl_ != 'Disallowed' else corr.disagreements).append(
+                (case, impl_, 'VIOLATED:values above U+10FFFF must be Disallowed (asked right after a value with the same low bits)' if cp > 0x10FFFF else model))
+    corr.count('order_dependent_probes', len(seqc))
     if ctx.tier == 'thorough':
         # all 2^32 values, 16 threads: above the dump band everything must be Disallowed
         out = sh([HARNESS, 'rle', '--full', 'cls_id', 'cls_ff'], timeout=7200).stdout
